@@ -366,6 +366,7 @@ func C16(run *vf.Run) {
 		return cases[i].Mut.Kind+cases[i].Mut.Role < cases[j].Mut.Kind+cases[j].Mut.Role
 	})
 	run.Logf("SecLang_MC: %d texts", len(cases))
+	c16Layout(run)
 	// single-argument directives: quoted or not, whatever the case of the directive name, they configure the same thing
 	{
 		prelude := "SecRule ARGS \"@rx a\" \"id:1,phase:2,pass,tag:'t',tag:'tt',tag:'t.t'\"\nSecRule ARGS \"@rx a\" \"id:10,phase:2,pass\"\n"
@@ -628,6 +629,129 @@ func C16(run *vf.Run) {
 				}
 				report("seclang:renderings-differ|"+fmt.Sprint(pass), what+strings.Join(texts, " vs "), c, texts[0])
 			}
+		}
+	}
+}
+
+// c16Layout replays the line-level family (Layout_MC.tla): every sequence of <= MaxLines physical lines over
+// {rule, rule with a long word, rule over two lines, comment, long comment, blank} x every ending of the text.
+// The compiled rules must be exactly the rule lines, in order; where the specification leaves rejecting open
+// (a very long line, a dangling continuation) an error is accepted; fewer rules than written never are.
+func c16Layout(run *vf.Run) {
+	type layCase struct {
+		Lines     []string `json:"lines"`
+		Ending    string   `json:"ending"`
+		IDs       []int    `json:"ids"`
+		MayReject bool     `json:"mayReject"`
+	}
+	var cases []layCase
+	var mu sync.Mutex
+	res, err := vf.RunTLC(vf.TLCOpts{Module: "Layout_MC", CfgText: fmt.Sprintf("SPECIFICATION Spec\nCONSTANTS\n  MaxLines = %d\nINVARIANTS IdsAscending Emit\nCHECK_DEADLOCK FALSE\n", vf.Pick(run, 3, 4)),
+		Workers: 4, Timeout: 10 * time.Minute,
+		OnOut: func(raw json.RawMessage) {
+			var c layCase
+			if json.Unmarshal(raw, &c) == nil && len(c.Lines) > 0 {
+				mu.Lock()
+				cases = append(cases, c)
+				mu.Unlock()
+			}
+		}})
+	if err != nil || !res.OK() || len(cases) == 0 {
+		run.Inconclusive("Layout_MC: %v %v (%d cases)", err, res, len(cases))
+		return
+	}
+	run.AddTLC(res)
+	run.Logf("Layout_MC: %s; %d texts", res.Describe(), len(cases))
+	reported := map[string]bool{}
+	for _, long := range []int{300, 65000, 65536, 70000, 200000} {
+		for ci := range cases {
+			c := &cases[ci]
+			hasLong := false
+			for _, k := range c.Lines {
+				if k == "ruleLong" || k == "commentLong" {
+					hasLong = true
+				}
+			}
+			if !hasLong && long != 300 {
+				continue // the size only matters for texts that hold a long line
+			}
+			var sb strings.Builder
+			for i, k := range c.Lines {
+				id := i + 1
+				switch k {
+				case "rule":
+					fmt.Fprintf(&sb, "SecAction \"id:%d,phase:1,pass\"", id)
+				case "ruleLong":
+					fmt.Fprintf(&sb, "SecAction \"id:%d,phase:1,pass,msg:'%s'\"", id, strings.Repeat("m", long))
+				case "contRule":
+					fmt.Fprintf(&sb, "SecAction \\\n  \"id:%d,phase:1,pass\"", id)
+				case "comment":
+					sb.WriteString("# a comment")
+				case "commentLong":
+					sb.WriteString("# " + strings.Repeat("c", long))
+				case "blank":
+				}
+				if i < len(c.Lines)-1 {
+					sb.WriteString("\n")
+				}
+			}
+			switch c.Ending {
+			case "nl":
+				sb.WriteString("\n")
+			case "cont":
+				sb.WriteString(" \\")
+				if ci%2 == 0 {
+					sb.WriteString("\n")
+				}
+			}
+			text := sb.String()
+			dumps, errText, p := c16Compile(text, "")
+			run.Eval("layout" + text[:min(len(text), 200)] + fmt.Sprint(long, c.Ending))
+			feat := strings.Join(c.Lines, ",") + "+end:" + c.Ending
+			kind := ""
+			switch {
+			case p != "":
+				kind = "panic"
+			case errText != "" && !c.MayReject:
+				kind = "valid-text-rejected"
+			case errText == "":
+				var got []int
+				for _, d := range dumps {
+					got = append(got, d.ID)
+				}
+				if fmt.Sprint(got) != fmt.Sprint(c.IDs) {
+					kind = "rules-dropped"
+					errText = fmt.Sprintf("the text holds the rules %v, compiled without an error: %v", c.IDs, got)
+				} else {
+					for i, k := range c.Lines {
+						if k == "ruleLong" {
+							for _, d := range dumps {
+								if d.ID == i+1 && len(d.Msg) != long {
+									kind, errText = "long-word-altered", fmt.Sprintf("msg of rule %d was written with %d bytes, compiled with %d", d.ID, long, len(d.Msg))
+								}
+							}
+						}
+					}
+				}
+			}
+			if kind == "" {
+				continue
+			}
+			lk := "short"
+			if hasLong {
+				lk = "long-line"
+			}
+			sig := "seclang:layout-" + kind + "|" + lk + "+end:" + c.Ending
+			if reported[sig] {
+				continue
+			}
+			reported[sig] = true
+			shown := text
+			if len(shown) > 400 {
+				shown = shown[:200] + " ... " + shown[len(shown)-150:]
+			}
+			run.Violate(vf.Violation{Signature: sig, What: fmt.Sprintf("line layout %s (long = %d bytes): %s %s || text: %s", feat, long, kind, errText, strconv.Quote(shown)),
+				Replay: map[string]any{"family": "seclang-layout", "lines": c.Lines, "ending": c.Ending, "long": long, "expected_ids": c.IDs}})
 		}
 	}
 }
